@@ -469,7 +469,15 @@ impl World {
     // ------------------------------------------------------------------ steps
 
     fn emit(&mut self, from: usize, to: usize, msg: chitchat::ChitchatMessage, check: bool, out: &mut StepOut) {
-        let bytes = real::real_encode(&msg);
+        let bytes = match guarded(|| real::real_encode(&msg)) {
+            Ok(b) => b,
+            Err(p) => {
+                for prop in ["C07", "C08", "C04"] {
+                    out.viol(prop, format!("node {from} cannot serialize the message it wants to send (panic): {p}"), format!("panic:{}", short_loc(&p)));
+                }
+                return;
+            }
+        };
         let decoded = match codec::decode(&bytes) {
             Ok(d) => d,
             Err(e) => {
